@@ -55,6 +55,12 @@ def _hd():
     return whd
 
 
+def _b43():
+    import bits.bips.bip43 as b43
+
+    return b43
+
+
 # ---------------------------------------------------------------- helpers
 
 
@@ -188,7 +194,83 @@ def check_derive(case):
     xp2 = attempt(whd.get_xpub, want.neuter().string())
     d = _diff(xp2, want.neuter().string())
     f.expect(d is None, f"derive/get_xpub-of-xpub-ne-input/{d}", f"{xp2!r} want {want.neuter().string()!r}")
+    # the BIP43 wrappers (what the HD wallet serialises with): same fields, always the mainnet versions
+    b43 = _b43()
+    wm = ref.XKey("main", "prv", want.depth, want.fp, want.child, want.cc, want.key)
+    args = (want.cc, bytes([want.depth]), want.fp, ref.ser32(want.child))
+    s43 = attempt(b43.serialized_extended_key, want.key, *args)
+    d = _diff(s43, wm.string())
+    f.expect(d is None, f"derive/bip43-xprv-serialisation/{d}", f"path {path}: {s43!r} want {wm.string()!r}")
+    s43 = attempt(b43.serialized_extended_key, seq(want.point()), *args)
+    d = _diff(s43, wm.neuter().string())
+    f.expect(d is None, f"derive/bip43-xpub-serialisation/{d}", f"path {path}: {s43!r} want {wm.neuter().string()!r}")
+    rm = ref.XKey("main", "prv", 0, root.fp, 0, root.cc, root.key)
+    r43 = attempt(b43.root_serialized_extended_key, root.key, root.cc)
+    d = _diff(r43, rm.string())
+    f.expect(d is None, f"derive/bip43-root-serialisation/{d}", f"{r43!r} want {rm.string()!r}")
+    # derive_child (mainnet strings only): one step from the parent's xprv, and from its xpub when the index allows
+    if idxs and not testnet:
+        par = root.derive_path(idxs[:-1])
+        i = idxs[-1]
+        c = attempt(whd.derive_child, par.string().decode(), i)
+        d = _diff(c.encode() if isinstance(c, str) else c, want.string())
+        f.expect(d is None, f"derive/derive_child-xprv-ne-reference/{d}", f"path {path}: {c!r} want {want.string()!r}")
+        c = attempt(whd.derive_child, par.neuter().string().decode(), i)
+        if i >= ref.HARD:
+            f.expect(raised(c), "derive/derive_child-hardened-from-xpub-accepted", f"path {path}: returned {c!r}")
+        else:
+            d = _diff(c.encode() if isinstance(c, str) else c, want.neuter().string())
+            f.expect(d is None, f"derive/derive_child-xpub-ne-reference/{d}", f"path {path}: {c!r} want {want.neuter().string()!r}")
+        cls.append("nt:derive_child")
+    # bip32's serialiser takes depth and child number as ints too (its signature says Union[bytes, int])
+    si = attempt(b32.serialized_extended_key, want.key, want.cc, want.depth, want.fp, want.child, testnet)
+    d = _diff(si, want.string())
+    f.expect(d is None, f"derive/serialise-int-fields/{d}", f"path {path}: {si!r} want {want.string()!r}")
     return cls, f
+
+
+def check_wallet(case):
+    """The HD wallet class: root keys and keys along a path, serialised through the BIP43 wrappers (mainnet versions)."""
+    whd = _hd()
+    f = Fails()
+    idxs = list(case["path"])
+    seed = hashlib.pbkdf2_hmac("sha512", case["mnemonic"].encode(), b"mnemonic" + case["passphrase"].encode(), 2048)
+    root = ref.XKey.from_seed(seed, "main")
+    want = root.derive_path(idxs) if root is not None else None
+    if want is None:
+        return ["ref-invalid-child"], f
+    cls = ["wallet"] + _path_classes(idxs)
+    w = attempt(whd.HD.from_mnemonic, case["mnemonic"], case["passphrase"])
+    if raised(w):
+        f.add(f"wallet/construct-raised-{w.kind}", w)
+        return cls, f
+    for name, exp in (("root_xprv", root.string()), ("root_xpub", root.neuter().string())):
+        got = getattr(w, name, None)
+        d = _diff(got.encode() if isinstance(got, str) else got, exp)
+        f.expect(d is None, f"wallet/{name}-ne-reference/{d}", f"{got!r} want {exp!r}")
+    path = ref.fmt_path("m", idxs)
+    got = attempt(w.get_xkeys_from_path, path)
+    if raised(got):
+        f.add(f"wallet/path-raised-{got.kind}", got)
+        return cls, f
+    got = pair(got)
+    for g, exp, name in ((got[0], want.string(), "xprv"), (got[1], want.neuter().string(), "xpub")):
+        d = _diff(g.encode() if isinstance(g, str) else g, exp)
+        f.expect(d is None, f"wallet/path-{name}-ne-reference/{d}", f"path {path}: {g!r} want {exp!r}")
+    return cls, f
+
+
+WORDS = ["abandon", "zoo", "legal", "winner", "thank", "year", "wave", "sausage", "worth", "useful", "letter", "advice"]
+
+
+def wallet_cases(tier):
+    return st.fixed_dictionaries(
+        {
+            "mnemonic": st.lists(st.sampled_from(WORDS), min_size=12, max_size=24).map(" ".join),
+            "passphrase": st.sampled_from(["", "", "TREZOR", "p w"]),
+            "path": depths(tier).flatmap(lambda d: st.lists(indices(), min_size=d, max_size=d)),
+        }
+    )
 
 
 def _h(b, n=32):
@@ -681,7 +763,14 @@ def targets(tier):
             strategy=derive_cases,
             budget={"quick": 240, "thorough": 4000},
             required=["nt:mixed-hardened-plain", "nt:idx-max-plain", "nt:idx-min-hardened", "nt:idx-max-hardened", "net:main", "net:test", "depth-0", "all-plain", "all-hardened",
-                      "nt:lead0-key0", "nt:lead0-cc0", "nt:lead0-il0", "nt:lead0-px0", "nt:lead0-fp0"],
+                      "nt:lead0-key0", "nt:lead0-cc0", "nt:lead0-il0", "nt:lead0-px0", "nt:lead0-fp0", "nt:derive_child"],
+        ),
+        Target(
+            "wallet",
+            check_wallet,
+            strategy=wallet_cases,
+            budget={"quick": 96, "thorough": 1500},
+            required=["wallet", "depth-0", "nt:mixed-hardened-plain"],
         ),
         Target(
             "commute",
